@@ -927,3 +927,168 @@ Example C01_alm_zerofpr_lbfgs_nonvacuous :
                     nvPP false nvAP 5 5 (lbfgs_unsized (T:=R)) 3 0 None [0] [0] = Some co /\
     f_status (co_final co) = Converged /\ co_x co = [0] /\ f_y (co_final co) = [0].
 Proof. exact nvzD_converged. Qed.
+
+(* ====================================================================================================================================
+   (16)–(19) THE SHIPPED PANTR STACK ALMSolver<PANTRSolver<NewtonTRDirection>> (composed model AlmPantrDir.alm_pantr_dir: the ALM outer
+   loop running PantrDir.pantrD — the PANTR loop with a STATEFUL trust-region direction provider; the provider object persists across
+   inner solves like the C++ member, `initialize` is called at k = 0 of every inner solve with that solve's y and Σ; the trust radius is
+   local to one inner solve).
+   A TR provider "keeps dimensions" (PantrDirLen.trdir_len n D ops I0 Iv): on n-vectors initialize — if it returns — establishes Iv
+   from a state satisfying I0 or Iv, update / changed_γ / reset preserve Iv, and apply — if it returns — preserves Iv and leaves an
+   n-vector in q.  This REPLACES the direction-oracle hypothesis of C01_alm_pantr_converged_is_kkt (which quantifies over all call
+   indices and so cannot be met by the finite call log of a run): the dimension invariant is proved on the provider loop itself
+   (PantrDirLen.v), the inner contract comes through the refinement PANTRDIR_refines_oracle_model. *)
+From Alpaqa Require Import Steihaug DirectionsTR PantrDir PantrDirProofs PantrDirLen AlmPantrDir AlmPantrDirProofs AlmPantrDirRefine.
+
+(* what "keeps dimensions" says for a TR provider, field by field *)
+Theorem C01_trdir_len_unfolds : forall (n : nat) (D : Type) (ops : trdirops R D) (I0 Iv : D -> Prop),
+  trdir_len n D ops I0 Iv <->
+  ((forall d y S γ x xh p g d', I0 d \/ Iv d -> length x = n -> length xh = n -> length p = n -> length g = n ->
+      td_initialize D ops d y S γ x xh p g = Some d' -> Iv d') /\
+   (forall d γ γn x xn p pn g gn, Iv d ->
+      length x = n -> length xn = n -> length p = n -> length pn = n -> length g = n -> length gn = n ->
+      Iv (snd (td_update D ops d γ γn x xn p pn g gn))) /\
+   (forall d γ x xh p g Δ q q' v d', Iv d -> length x = n -> length xh = n -> length p = n -> length g = n ->
+      td_apply D ops d γ x xh p g Δ q = Some (q', v, d') -> Iv d' /\ length q' = n) /\
+   (forall d a b, Iv d -> Iv (td_changed_gamma D ops d a b)) /\
+   (forall d, Iv d -> Iv (td_reset D ops d))).
+Proof.
+  intros. split; [intros [A B C E F]; split; [exact A|split; [exact B|split; [exact C|split; [exact E|exact F]]]]|intros (A & B & C & E & F); constructor; assumption].
+Qed.
+Print Assumptions C01_trdir_len_unfolds.
+
+(* (16) NewtonTRDirection keeps dimensions — NO hypothesis: every NewtonTRDirectionParams (hessian_vec_factor, exact Hessian products or
+   finite differences, every perturbation size), every SteihaugCGParams and iteration-cap conversion, arbitrary eval_grad_ψ /
+   eval_hess_ψ_prod members and capability flags, any box / l1 data: apply returns q with q(K) = p(K), q(J) = the CG step scattered
+   back, a vector of the length of p whatever SteihaugCG::solve produced *)
+Theorem C01_newtontr_keeps_dimensions : forall (n : nat) (lb ub : list (option R)) (l1 : list R)
+    (prov_inactive prov_hess_L prov_hess_psi m_is_zero : bool)
+    (grad_psi_at : list R -> list R -> list R -> list R) (hess_psi_prod : list R -> list R -> list R -> R -> list R -> list R)
+    (hvf : R) (fd : bool) (fd_step cg_ts cg_tsr : R) (cg_tmax : option R) (cg_max_iter : nat -> Z) (eps_mach : R),
+  trdir_len n (ntrstate R)
+            (newton_tr_dir lb ub l1 prov_inactive prov_hess_L prov_hess_psi m_is_zero grad_psi_at hess_psi_prod
+                           hvf fd fd_step cg_ts cg_tsr cg_tmax cg_max_iter eps_mach)
+            (fun _ => True) (fun _ => True).
+Proof. exact ntr_len. Qed.
+Print Assumptions C01_newtontr_keeps_dimensions.
+
+Section ShippedPantr.
+  Variable Pb : problem (T:=R).
+  Variable prov : fn -> bool.
+  Variable wm_supplied : list R -> list R.
+  Variables (Clb Cub : list (option R)) (l1 : list R).
+  Variable split : nat.
+  Variables (stop_req time_up : counters -> bool) (outer_oot : nat -> bool).
+  Variable TP : trparams (T:=R).             (* PANTRParams *)
+  Variable AP : alm_params (T:=R).
+  Variables (bt_fuel inner_fuel n m : nat).
+  (* the hypotheses of C01_alm_pantr_converged_is_kkt WITHOUT the one on the direction oracle, each genuinely needed (see there) *)
+  Hypothesis Hprov : provider_ok Pb prov.
+  Hypothesis Hempty : grad_g_prod_empty_ok Pb.
+  Hypothesis Hl1 : l1 = [].
+  Hypothesis Hcrit : p_crit (tp_base TP) = ApproxKKT.
+  Hypothesis HLg : 0 < p_Lgamma (tp_base TP).
+  Hypothesis HL : 0 < p_L0 (tp_base TP) \/ 0 < p_Lmin (tp_base TP) <= p_Lmax (tp_base TP).
+  Hypothesis HClb : length Clb = n.
+  Hypothesis HCub : length Cub = n.
+  Hypothesis HCne : Forall2 box_ne Clb Cub.
+  Hypothesis Hgf : forall x, length x = n -> length (pgrad_f Pb x) = n.
+  Hypothesis Hgg : forall x y, length x = n -> length (pgrad_g_prod Pb x y) = n.
+  Hypothesis Hg : forall x, length x = n -> length (pg Pb x) = m.
+  Hypothesis HDlb : length (plb Pb) = m.
+  Hypothesis HDub : length (pub Pb) = m.
+  Hypothesis HDne : Forall2 box_ne (plb Pb) (pub Pb).
+
+  (* the ALM-level hypotheses on one run, as in (3) *)
+  Definition alm_run_hyps_tr (Σ0 : option (list R)) (y0 x0 : list R) : Prop :=
+    length x0 = n /\ length y0 = m /\ Alm.p_max_iter AP <> 0%nat /\
+    (m <> 0%nat -> sigma_inv AP m (initial_sigma AP m (pf Pb x0) (pg Pb x0) Σ0)) /\
+    (m = 0%nat -> 0 < p_tol AP).
+
+  (* (17) ALM ∘ PANTR with a stateful TR provider, generically: every provider that keeps dimensions, from a sane state *)
+  Theorem C01_alm_pantr_provider_converged_is_kkt :
+    forall (D : Type) (ops : trdirops R D) (I0 Iv : D -> Prop), trdir_len n D ops I0 Iv ->
+    forall (d0 : D) outer_fuel nanv Σ0 y0 x0 co, I0 d0 \/ Iv d0 -> alm_run_hyps_tr Σ0 y0 x0 ->
+    alm_pantr_dir Pb prov wm_supplied Clb Cub l1 split D ops stop_req time_up outer_oot TP AP bt_fuel inner_fuel d0 outer_fuel nanv Σ0 y0 x0
+      = Some co ->
+    f_status (co_final co) = Converged ->
+    kkt_point Pb Clb Cub n m (p_tol AP) (p_dual_tol AP) (co_x co) (f_y (co_final co)).
+  Proof.
+    intros D ops I0 Iv HDL d0 outer_fuel nanv Σ0 y0 x0 co Hd0 (H1 & H2 & H3 & H4 & H5).
+    exact (alm_pantr_dir_converged_is_kkt Pb prov wm_supplied Clb Cub l1 split D ops stop_req time_up outer_oot TP AP bt_fuel inner_fuel n m
+             Hprov Hempty Hl1 Hcrit HLg HL HClb HCub HCne Hgf Hgg Hg HDlb HDub HDne I0 Iv HDL d0 outer_fuel nanv Σ0 y0 x0 co Hd0 H1 H2 H3 H4 H5).
+  Qed.
+
+  (* (18) ALMSolver<PANTRSolver<NewtonTRDirection>> — the stack the library ships: NO hypothesis about the direction.  Exact Hessian
+     products (fd = false) and finite differences (fd = true), every hessian_vec_factor / finite_diff_stepsize, every SteihaugCGParams,
+     ARBITRARY eval_grad_ψ / eval_hess_ψ_prod members (no symmetry, no linearity, no length assumption), any capability flags, any box /
+     l1 data handed to the provider, any provider state d0.  The provider's own throw conditions (initialize: no Hessian member without
+     finite differences, no eval_inactive_indices_res_lna; apply: radius not finite or below ε_mach) need not be excluded: a run in which a
+     provider call throws has no result (None), the statement is about completed runs. *)
+  Theorem C01_alm_pantr_newtontr_converged_is_kkt :
+    forall (dlb dub : list (option R)) (dl1 : list R) (prov_inactive prov_hess_L prov_hess_psi m_is_zero : bool)
+           (grad_psi_at : list R -> list R -> list R -> list R) (hess_psi_prod : list R -> list R -> list R -> R -> list R -> list R)
+           (hvf : R) (fd : bool) (fd_step cg_ts cg_tsr : R) (cg_tmax : option R) (cg_max_iter : nat -> Z) (eps_mach : R)
+           (d0 : ntrstate R) outer_fuel nanv Σ0 y0 x0 co, alm_run_hyps_tr Σ0 y0 x0 ->
+    alm_pantr_dir Pb prov wm_supplied Clb Cub l1 split (ntrstate R)
+                  (newton_tr_dir dlb dub dl1 prov_inactive prov_hess_L prov_hess_psi m_is_zero grad_psi_at hess_psi_prod
+                                 hvf fd fd_step cg_ts cg_tsr cg_tmax cg_max_iter eps_mach)
+                  stop_req time_up outer_oot TP AP bt_fuel inner_fuel d0 outer_fuel nanv Σ0 y0 x0 = Some co ->
+    f_status (co_final co) = Converged ->
+    kkt_point Pb Clb Cub n m (p_tol AP) (p_dual_tol AP) (co_x co) (f_y (co_final co)).
+  Proof.
+    intros dlb dub dl1 b1 b2 b3 b4 f1 f2 hvf fd fs ts tsr tm mi em d0 outer_fuel nanv Σ0 y0 x0 co (H1 & H2 & H3 & H4 & H5).
+    exact (alm_pantr_newtontr_converged_is_kkt Pb prov wm_supplied Clb Cub l1 split stop_req time_up outer_oot TP AP bt_fuel inner_fuel n m
+             Hprov Hempty Hl1 Hcrit HLg HL HClb HCub HCne Hgf Hgg Hg HDlb HDub HDne dlb dub dl1 b1 b2 b3 b4 f1 f2 hvf fd fs ts tsr tm mi em
+             d0 outer_fuel nanv Σ0 y0 x0 co H1 H2 H3 H4 H5).
+  Qed.
+
+  (* the provider object survives: after ANY completed ALM run (whatever its status) from a sane provider, the provider is sane again
+     and the primal buffer holds an n-vector — a second operator() call on the same solver object is covered by (17) again *)
+  Theorem C01_alm_pantr_provider_stays_sane :
+    forall (D : Type) (ops : trdirops R D) (I0 Iv : D -> Prop), trdir_len n D ops I0 Iv ->
+    forall (d0 : D) outer_fuel nanv Σ0 y0 x0 co, I0 d0 \/ Iv d0 -> length x0 = n ->
+    alm_pantr_dir Pb prov wm_supplied Clb Cub l1 split D ops stop_req time_up outer_oot TP AP bt_fuel inner_fuel d0
+                  outer_fuel nanv Σ0 y0 x0 = Some co ->
+    (I0 (snd (co_w co)) \/ Iv (snd (co_w co))) /\ length (co_x co) = n.
+  Proof.
+    intros D ops I0 Iv HDL.
+    exact (alm_pantr_dir_keeps_provider Pb prov wm_supplied Clb Cub l1 split D ops stop_req time_up outer_oot TP AP bt_fuel inner_fuel n m
+             Hprov Hempty Hl1 Hcrit HLg HL HClb HCub Hgf Hgg Hg HDlb HDub I0 Iv HDL).
+  Qed.
+End ShippedPantr.
+Print Assumptions C01_alm_pantr_provider_converged_is_kkt.
+Print Assumptions C01_alm_pantr_newtontr_converged_is_kkt.
+Print Assumptions C01_alm_pantr_provider_stays_sane.
+
+(* (19) REFINEMENT of whole composed runs, PANTR: every run of ALM ∘ PANTR with ANY stateful TR provider (any initial state) IS a run of
+   the oracle-direction model alm_pantr of (8) for the oracle "the j-th apply call of the whole ALM run (global index, across inner
+   solves) returned the (q, model value) the provider returned there" — same ALM trace, final statistics, x, cumulative counters, and the
+   SAME inner results (outputs, statistics, counters, whole callback logs incl. q, Δ, ρ).  So every theorem about alm_pantr for every
+   direction oracle (C07's invariants, C19's stop theorems) holds for the shipped stack ALMSolver<PANTRSolver<NewtonTRDirection>>. *)
+Theorem C01_alm_pantr_provider_refines_oracle_model :
+  forall (Pb : problem (T:=R)) (prov : fn -> bool) (wm_supplied : list R -> list R) (Clb Cub : list (option R)) (l1 : list R)
+    (split : nat) (D : Type) (ops : trdirops R D) (stop_req time_up : counters -> bool)
+    (outer_oot : nat -> bool) (TP : trparams (T:=R)) (AP : alm_params (T:=R)) (bt_fuel inner_fuel : nat)
+    (d0 : D) (outer_fuel : nat) (nanv : R) (Σ0 : option (list R)) (y0 x0 : list R) (coD : cout (counters * D) (tresultD (T:=R) D)),
+  alm_pantr_dir Pb prov wm_supplied Clb Cub l1 split D ops stop_req time_up outer_oot TP AP bt_fuel inner_fuel d0 outer_fuel nanv Σ0 y0 x0
+    = Some coD ->
+  exists co : cout counters (tresult (T:=R)),
+    alm_pantr Pb prov wm_supplied Clb Cub l1 split
+              (fun j _ _ => match nth_error (tcalls D (co_logs coD)) j with Some c => (tc_q c, tc_val c) | None => ([], 0) end)
+              (td_has_initial D ops) stop_req time_up outer_oot TP AP bt_fuel inner_fuel outer_fuel nanv Σ0 y0 x0 = Some co /\
+    co_trace co = co_trace coD /\ co_final co = co_final coD /\ co_x co = co_x coD /\ co_w co = fst (co_w coD) /\
+    Forall2 (tlog_sim D) (co_logs coD) (co_logs co).
+Proof. exact alm_pantr_dir_refines. Qed.
+Print Assumptions C01_alm_pantr_provider_refines_oracle_model.
+
+(* non-vacuity of (18): the instance of C01_alm_panoc_nonvacuous with PANTR + NewtonTRDirection (default NewtonTRDirectionParams and
+   SteihaugCGParams, exact Hessian products), from the default-constructed provider: the composed model returns Converged after one outer
+   iteration, x = 0, y = 0 *)
+Example C01_alm_pantr_newtontr_nonvacuous :
+  exists co,
+    alm_pantr_dir nvPb nvprov (fun _ => []) [Some 0] [Some 1] [] 0 (ntrstate R) nvt_ntr nv_never nv_never (fun _ => false) nvTP nvAP 5 5
+                  (ntr_new (T:=R)) 3 0 None [0] [0] = Some co /\
+    f_status (co_final co) = Converged /\ co_x co = [0] /\ f_y (co_final co) = [0].
+Proof. exact nvtD_converged. Qed.
+Print Assumptions C01_alm_pantr_newtontr_nonvacuous.
